@@ -103,6 +103,14 @@ claim(
 )
 
 claim(
+    "C18",
+    "Static: decides the switch clause (option off: literal 0 value and zero partials), the wiring of the lift coefficient into the wave-drag estimate and of the three drag parts into the sum, and -- on the expressions extracted from compute() -- that the per-panel skin-friction coefficient is positive and decreases with the chord Reynolds number in the fully turbulent and fully laminar branches (interval proof; mixed branch: positivity proved, monotonicity searched for counterexamples only), that the form factor is positive and increases with t/c, and that the wave drag is exactly 0 up to Mcrit and 20 (M - Mcrit)^4 beyond it (C3 junction) with the Korn drag-divergence Mach number, growing with Mach number and lift. Does not decide independence of the panel count.",
+    TB + " Interval arithmetic of mpmath.",
+    "source-level expression extraction (sympy); interval branch-and-bound and sign reasoning on the extracted expressions; group dataflow",
+    "DESIGN.md section 2 C18",
+)
+
+claim(
     "C05",
     "Static: decides the structural clauses of the vortex-lattice method for every option valuation: the finite filaments EvalVelMtx adds for each (image) surface form a closed directed ring over the four panel corners with one strength, the last row sheds the reversed rear segment into two semi-infinite legs of opposite sign along (cos alpha, 0, sin alpha) so that no filament ends in the fluid; collocation points, force points, bound vectors and vortex-ring rows are the 3/4- and 1/4-chord stencils of the mesh corners with the trailing edge kept; the panel force is rho Gamma (v x l); the tangency system is -(v.n) and (AIC.n). Does not decide kernel values, the solve, the tangency residual or agreement with an independent solver.",
     TB + " The Biot-Savart kernels are uninterpreted functions of the corner arrays they are applied to.",
